@@ -1525,11 +1525,12 @@ fn gen_setup(r: &mut Rng) -> (Vec<String>, Vec<(usize, Vec<(usize, TypeKind)>, V
         lines.push(format!("ins {}", enc_instr(i, &mut bt)));
     }
     // initial stack
-    let ninit = match g.r.below(8) {
-        0 => 0,
-        1 => 100,
-        2 => 99,
-        3 => 101,
+    let ninit = match g.r.below(24) {
+        0 | 1 | 2 => 0,
+        3 => 100,
+        4 => 99,
+        5 => 101,
+        6 => 97,
         _ => g.r.below(7) as usize,
     };
     for _ in 0..ninit {
@@ -1599,8 +1600,8 @@ fn main() {
     }
 
     let mut rng = Rng::new(args.seed);
-    let cases = args.budget(1500, 40000);
-    let budget = 60;
+    let cases = args.budget(12000, 150000);
+    let budget = args.budget(60, 200);
     for i in 0..cases {
         let mut r = rng.fork();
         let (lines, fdefs) = gen_setup(&mut r);
